@@ -621,7 +621,7 @@ func lProbe() {
 		paths := lPaths(core.Thorough())
 		for _, p := range paths {
 			t1 := time.Now()
-			lRunPath(c, p, r, false)
+			lCheck(c, p, r)
 			if os.Getenv("C01_LOCAL_ALL") == "v" {
 				fmt.Printf("%-8v %-22s miner=%-5v %s\n", time.Since(t1).Round(time.Millisecond), p.Kind, p.Miner, scriptString(p.Script))
 			}
@@ -646,11 +646,11 @@ func lProbe() {
 		return
 	}
 	p := lpath{Kind: "probe", Script: parseScript(script), Miner: os.Getenv("C01_LOCAL_MINER") != ""}
-	tr := lRunPath(c, p, r, true)
+	tr, vs := lRunPath(c, p, r, true)
 	for _, l := range tr {
 		fmt.Println(l)
 	}
-	for _, v := range r.Violations {
+	for _, v := range vs {
 		fmt.Printf("VIOLATION %s\n  %s\n", v.Fingerprint, v.What)
 	}
 	keys := make([]string, 0)
